@@ -112,6 +112,14 @@ func (r *runner) construct() bool {
 }
 
 func (r *runner) do(o *gop, sample bool) {
+	if o.alias { // the VALUE the aliased argument has when the call is made
+		own := safeBytes(r.tb)
+		k := o.skip
+		if k > len(own) {
+			k = len(own)
+		}
+		o.p = own[k:]
+	}
 	st, data := apply(r.tb, o)
 	so := seen{st: st, data: data, ln: safeLen(r.tb)}
 	if sample {
@@ -766,6 +774,10 @@ func main() {
 				aliasHistories(e)[idx].emit(e, e.Replay)
 				return
 			}
+			if f[1] == "selfalias" {
+				selfAliasHistories()[idx].emit(e, e.Replay)
+				return
+			}
 			if f[1] == "par" { // a parallel run cannot be repeated step for step: run the class again and show its rounds
 				e.Seed = seed
 				ph, _, _ := runParallel(e, parRounds(f[3] == "1"))
@@ -828,6 +840,11 @@ func main() {
 				h.emit(e, fmt.Sprintf("%d/%s/%d/%s", e.Seed, c.name, i, t))
 				count(h)
 			}
+		}
+		// deterministic, seed-independent, after every other class (nothing else shifts)
+		for i, h := range selfAliasHistories() {
+			h.emit(e, fmt.Sprintf("%d/selfalias/%d/0", e.Seed, i))
+			count(h)
 		}
 		e.Meta["stats"] = stats
 		e.Meta["op_histogram"] = opHist
